@@ -21,6 +21,7 @@ func init() {
 }
 
 func checkC17(c *Ctx) {
+	c.checkLockPairing("locks.paired", "internal/mod/modload", "internal/mod/modpkgload")
 	c.checkErrorDiscipline("errors.no-new-dropped-error/modfile", "mod/modfile", map[string]string{
 	})
 	c.checkErrorDiscipline("errors.no-new-dropped-error/modpkgload", "internal/mod/modpkgload", map[string]string{
